@@ -495,6 +495,9 @@ impl Graph {
         // as the vec in the DisambiguationError is sorted by leaf id already
         graph.errors.sort_unstable();
 
+        #[cfg(feature = "verif_hooks")]
+        crate::verif::record_raw(&graph);
+
         // Find early accept states
         for state in graph.iter_states() {
             let state_data = graph.get_state(state);
